@@ -480,3 +480,19 @@ def data_variant(rng, data):
             rc['dtype'] = (dt[0] if dt[0] != '|' else '<') + swap[dt[1:]]
             changed = True
     return d if changed else None
+
+
+def failed_attempt(rng, w, path='failed.dlis'):
+    """A copy of write op / write kwargs `w` carrying one seeded fault (I/O error at an early event, or an interrupt at a line):
+    an attempt that fails - or, if the fault point lies beyond the write, succeeds - before the write under test."""
+    w2 = copy.deepcopy(w)
+    w2['path'] = path
+    fk = rng.choice(['open_fail', 'write_fail', 'write_fail', 'close_fail', 'interrupt', 'interrupt', 'interrupt'])
+    if fk == 'interrupt':
+        w2['faults'] = [{'kind': 'interrupt', 'at_line': rng.randint(1, 4000)}]
+    else:
+        flush = rng.choice([0, 1, 1, 2, 3])
+        w2['faults'] = [{'kind': fk, 'at_event': 3 * flush + {'open_fail': 0, 'write_fail': 1, 'close_fail': 2}[fk],
+                         'errno': rng.choice([5, 28]), 'partial': rng.choice([0, 7, 80]), 'lose': 0}]
+    w2['failed_attempt'] = True
+    return w2
